@@ -48,6 +48,8 @@ pub enum Report {
     ExtIfDown { asn: u64, ifid: u16, tag: u8 },
     IntConnDown { asn: u64, ing: u16, eg: u16, tag: u8 },
     FirstHop { ifid: u16 },
+    /// a first-hop send failure reported for another local AS (the stack may serve several): concerns no path of this one
+    FirstHopForeign { asn: u64, ifid: u16 },
 }
 
 impl Report {
@@ -60,12 +62,13 @@ impl Report {
             Report::ExtIfDown { asn, ifid, .. } => hops.iter().any(|h| h.asn == *asn && h.eg == *ifid && h.eg != 0),
             Report::IntConnDown { asn, ing, eg, .. } => hops.iter().any(|h| h.asn == *asn && h.ing == *ing && h.eg == *eg && h.ing != 0 && h.eg != 0),
             Report::FirstHop { ifid } => hops.first().map(|h| h.eg == *ifid).unwrap_or(false),
+            Report::FirstHopForeign { .. } => false,
         }
     }
     pub fn penalty(&self) -> f64 {
         match self {
             Report::ExtIfDown { .. } | Report::IntConnDown { .. } => 1.0,
-            Report::FirstHop { .. } => 0.4,
+            Report::FirstHop { .. } | Report::FirstHopForeign { .. } => 0.4,
         }
     }
 }
@@ -120,6 +123,8 @@ pub struct Hist<'a> {
     pub known_hits: Vec<(String, String)>,
     pub in_cache_since: BTreeMap<usize, (u64, u64)>,
     pub reports_during_lookup: usize,
+    /// every report ever handed to the stack (also duplicates)
+    pub all_reports: Vec<Report>,
     /// stack mode: sends and failure reports go through the real path-aware socket (see stack.rs)
     pub stack: Option<crate::stack::StackSide>,
 }
@@ -227,6 +232,7 @@ impl<'a> Hist<'a> {
             known_hits: Vec::new(),
             in_cache_since: BTreeMap::new(),
             reports_during_lookup: 0,
+            all_reports: Vec::new(),
             stack,
         }
     }
@@ -335,7 +341,8 @@ impl<'a> Hist<'a> {
     }
 
     pub fn op_report(&mut self, rep: Report) {
-        if self.stack.is_some() {
+        self.all_reports.push(rep.clone());
+        if self.stack.is_some() && !matches!(rep, Report::FirstHopForeign { .. }) {
             self.sim.log(format!("report via socket {rep:?}"));
             self.stack_report(&rep);
             self.penalties.push(Penalty { report: rep, t_ns: self.sim.now_ns(), step: self.sim.with(|s| s.steps), t_eff: vec![None; self.n_dst], certain: true });
@@ -358,6 +365,10 @@ impl<'a> Hist<'a> {
                 }
                 Report::FirstHop { ifid } => {
                     let e = ScionSocketSendError::UnderlayNextHopUnreachable { isd_as: src_ia(), interface_id: ifid, address: None, msg: "simulated".into() };
+                    mgr.report_send_error(&e);
+                }
+                Report::FirstHopForeign { asn, ifid } => {
+                    let e = ScionSocketSendError::UnderlayNextHopUnreachable { isd_as: ia_of(asn), interface_id: ifid, address: None, msg: "simulated".into() };
                     mgr.report_send_error(&e);
                 }
             }
@@ -622,6 +633,7 @@ impl<'a> Hist<'a> {
             }
         }
         self.stack_collect();
+        self.check_unwarranted_penalties()?;
         self.check_handouts()?;
         self.check_requests()?;
         self.check_sizes()?;
